@@ -52,7 +52,7 @@ CHECKS = {
          "DESIGN.md section 4 C16"),
 
  "C17": ("runtime monitoring: boundary trace of `thailint unwrap-abuse|clone-abuse|blocking-async` on generated Rust files with planted calls of known kind, line and context (test/async/loop/wrapper); exact (rule id, line) multiset oracle per option setting",
-         "Held on the executions observed: sync/async functions, impl methods, #[test]/#[tokio::test] mixed with other attributes and comments, #[cfg(test)] and plain modules (nested), loops of every kind, chains, look-alikes, blocking wrappers; allow_in_tests / allow_expect / detect_* swept in yaml/json with hyphen/underscore section names; evidence counts planted calls per kind and context.",
+         "Held on the executions observed: sync/async functions, impl methods, #[test]/#[tokio::test] mixed with other attributes and comments, #[cfg(test)] and plain modules (nested), loops of every kind, chains, look-alikes, blocking wrappers, calls inside macro arguments, std::net types imported by name, awaited async twins; allow_in_tests / allow_expect / detect_* swept in yaml/json with hyphen/underscore section names; evidence counts planted calls per kind and context.",
          "Trusted: generator ground truth; clone statements constructed to fall into exactly one documented category; constructs the documentation is silent about are not generated.",
          "DESIGN.md section 4 C17"),
 
@@ -68,7 +68,7 @@ CHECKS = {
 
  "C03": ("runtime monitoring: boundary trace of `thailint dry` on generated projects with planted duplicate runs of known length, multiplicity and places; offline checker with an independent normaliser for soundness (named text identical), mutuality, completeness (intersection), occurrence counts and silence on duplicate-free projects",
          "Held on the executions observed: py/ts/js projects, runs of length W-1..W+4 and multiplicity 2-5 across files and twice in one file, different indentation, interleaved blank/comment/trailing-comment lines, suppressed occurrences, min_duplicate_lines 2-6, min_occurrences 2-4, both storage modes, '.', explicit file lists and mixed file+directory arguments; evidence counts occurrences, violations and counts checked.",
-         "Trusted: uniqueness of filler statements by construction; the harness normaliser (no comment markers inside strings in the strict workload; that case is a separate probe); 'covered' = intersected.",
+         "Trusted: uniqueness of filler statements by construction; the harness normaliser (string-aware, per-language comment markers; statements with the other language's marker or a marker inside a string literal are part of the strict workload); 'covered' = intersected.",
          "DESIGN.md section 4 C03"),
 
  "C04": ("runtime monitoring: base run vs variant run (one suppression directive inserted) of every linter command and of an unrelated witness command, for every cell of the matrix linter x language x directive form x rule-name spelling x placement; a scope model written from the property text predicts the variant",
@@ -76,7 +76,7 @@ CHECKS = {
          "Trusted: the scope model and the rule-name matcher (vlib/props/c04.py); line numbers inside messages are masked; per-linter ignore is judged only for linters whose documentation lists the option; file-header/file-placement only with forms that do not alter their subject.",
          "DESIGN.md section 4 C04"),
  "C05": ("runtime monitoring: boundary trace of linter commands on a staircase probe project (constructs straddling every threshold value) under the same setting written through .thailint.yaml / .thailint.json / pyproject.toml / --config (command and group level) with hyphen or underscore section names; relational oracles (carrier equivalence, enabled:false silence, effect + monotonicity along sweeps, precedence decoding, top-level ignore, exit 2 for invalid values and unparsable files)",
-         "Held on the executions observed: 20 commands x enabled:false x carriers; 23 threshold/switch sweeps; precedence yaml>json>pyproject and CLI options vs file values and per-language overrides; top-level ignore in every carrier; ten invalid values and eight unparsable-file variants; evidence counts each case class.",
+         "Held on the executions observed: 20 commands x enabled:false x carriers; one sweep per documented threshold / switch (about 40, incl. every lazy-ignores check_* switch and the file-header keys its documentation gives); precedence yaml>json>pyproject and CLI options vs file values and per-language overrides; top-level ignore in every carrier; ten invalid values and eight unparsable-file variants; evidence counts each case class.",
          "Trusted: the staircase project (vlib/gen/staircase.py) has constructs on both sides of each swept value; 'invalid' = rejected by the linter's own validation through .thailint.yaml (plus the documented non-positive limits).",
          "DESIGN.md section 4 C05"),
 
